@@ -535,6 +535,37 @@ func genDags(repo string) (string, error) {
 		}
 		fmt.Fprintf(&b, "Definition gen_reverse_fresh : bool * string := (%v, %s).\n", fresh, coqStr(why))
 	}
+
+	// Package-level variables of package dags (name and declared type or
+	// initialiser): anything mutable here is state shared by every caller.
+	{
+		var vars []string
+		for _, fn := range p.sortedFiles() {
+			if strings.HasSuffix(fn, "_test.go") {
+				continue
+			}
+			for _, d := range p.files[fn].Decls {
+				gd, ok := d.(*ast.GenDecl)
+				if !ok || gd.Tok != token.VAR {
+					continue
+				}
+				for _, sp := range gd.Specs {
+					vs := sp.(*ast.ValueSpec)
+					what := ""
+					if vs.Type != nil {
+						what = p.src(vs.Type)
+					} else if len(vs.Values) > 0 {
+						what = "= " + p.src(vs.Values[0])
+					}
+					for _, nm := range vs.Names {
+						vars = append(vars, fmt.Sprintf("(%s, %s)", coqStr(nm.Name), coqStr(what)))
+					}
+				}
+			}
+		}
+		sort.Strings(vars)
+		fmt.Fprintf(&b, "Definition gen_package_vars : list (string * string) := [%s].\n", strings.Join(vars, "; "))
+	}
 	return b.String(), nil
 }
 
